@@ -153,13 +153,23 @@ def extract_interval_styles():
     for mm in re.finditer(r"impl\s+DialectHandler\s+for\s+([A-Za-z]+)\s*\{", m):
         bo = mm.end() - 1
         over[mm.group(1)] = style_of(bo + 1, match_brace(m, bo), "impl DialectHandler for " + mm.group(1))
+    # has_interval_literal: trait default + overrides (boolean literals)
+    s, e = block_after(src, m, r"trait\s+DialectHandler\b[^{]*\{")
+    hdef = bool_method(src, m, s, e, "has_interval_literal", "trait DialectHandler")
+    if hdef is None:
+        raise ExtractError("trait DialectHandler has no has_interval_literal")
+    hover = {}
+    for mm in re.finditer(r"impl\s+DialectHandler\s+for\s+([A-Za-z]+)\s*\{", m):
+        bo = mm.end() - 1
+        hover[mm.group(1)] = bool_method(src, m, bo + 1, match_brace(m, bo), "has_interval_literal", "impl DialectHandler for " + mm.group(1))
     out = []
     for v in variants:
         st = over.get(handler[v]) or default
         for x in st:
             if x not in ("NoQuotes", "ValueAndUnitQuoted", "ValueQuoted"):
                 raise ExtractError("unknown IntervalQuotingStyle %s" % x)
-        out.append((v.lower(), st[0], st[1]))
+        sup = hdef if hover.get(handler[v]) is None else hover[handler[v]]
+        out.append((v.lower(), st[0], st[1], sup))
     return out
 
 
@@ -377,7 +387,11 @@ def extract():
                    'IntervalQuotingStyle::ValueAndUnitQuoted => { let value = Box::new(sql_ast::Expr::Value( Value::SingleQuotedString(format!("{} {}", vau.n, sql_parser_datetime)) .into(), )); ' + sk % "None" + ' } '
                    'IntervalQuotingStyle::NoQuotes => { let value = Box::new(translate_literal(Literal::Integer(vau.n), ctx)?); ' + sk % "Some(sql_parser_datetime)" + ' } '
                    'IntervalQuotingStyle::ValueQuoted => { let value = Box::new(sql_ast::Expr::Value( Value::SingleQuotedString(vau.n.to_string()).into(), )); ' + sk % "Some(sql_parser_datetime)" + ' } }')
-    if mv_.group(2) != want_styles:
+    # since fix 19e2c2a: a dialect without INTERVAL literals (handler.has_interval_literal() = false) is a compile error
+    want_guard = ('if !ctx.dialect.has_interval_literal() { return Err(Error::new_simple(format!( "interval literals are not supported for dialect {}", ctx.dialect_enum ))); } ')
+    if not mv_.group(2).startswith(want_guard):
+        raise ExtractError("translate_literal: the has_interval_literal guard of the interval arm is missing or changed")
+    if mv_.group(2)[len(want_guard):] != want_styles:
         raise ExtractError("translate_literal: the three interval quoting styles are no longer the modelled ones")
     if len(arms) != 9:
         raise ExtractError("translate_literal: %d arms (expected 9)" % len(arms))
@@ -476,7 +490,9 @@ def generate():
     v += "Definition interval_fields : list (list N * (list N * bool)) :=\n  [ " + ";\n    ".join("(%s, (%s, %s)) (* %s -> %s *)" % (codes(u), codes(f), b(w), u, f) for u, f, w in info["interval_fields"]) + " ].\n\n"
     sty = {"NoQuotes": "INoQuotes", "ValueAndUnitQuoted": "IValueAndUnitQuoted", "ValueQuoted": "IValueQuoted"}
     v += "(* sql/dialect.rs interval_quoting_style per dialect: (style for weeks, style for the other units) *)\n"
-    v += "Definition interval_styles : list (list N * (istyle * istyle)) :=\n  [ " + ";\n    ".join("(%s, (%s, %s)) (* %s *)" % (codes(n), sty[a_], sty[b_], n) for n, a_, b_ in info["interval_styles"]) + " ].\n"
+    v += "Definition interval_styles : list (list N * (istyle * istyle)) :=\n  [ " + ";\n    ".join("(%s, (%s, %s)) (* %s *)" % (codes(n), sty[a_], sty[b_], n) for n, a_, b_, _ in info["interval_styles"]) + " ].\n\n"
+    v += "(* sql/dialect.rs has_interval_literal per dialect: false = an interval literal is a compile error *)\n"
+    v += "Definition interval_supported : list (list N * bool) :=\n  [ " + ";\n    ".join("(%s, %s) (* %s *)" % (codes(n), b(s_), n) for n, _, _, s_ in info["interval_styles"]) + " ].\n"
     v = v.replace("From Coq Require Import List NArith.\n", "From Coq Require Import List NArith.\nFrom PV Require Import Model.Interval.\n", 1)
     gen_write("GenLiteral", v)
     return info
